@@ -43,11 +43,11 @@ def gen(ctx, fams):
         if isinstance(s, str) and s.startswith("SCRIPT "):
             d = json.loads(s[7:])
             b = d["b"]
-            key = json.dumps([b["name"], sorted(b["M"]), b["init"], d["steps"]], sort_keys=True)
+            key = json.dumps([b["name"], sorted(b["M"]), b["init"], sorted(b.get("cerr", [])), d["steps"]], sort_keys=True)
             if key in seen:
                 continue
             seen.add(key)
-            out.append({"fam": b["name"], "members": sorted(b["M"]), "init": b["init"], "steps": d["steps"]})
+            out.append({"fam": b["name"], "members": sorted(b["M"]), "init": b["init"], "cerr": sorted(b.get("cerr", [])), "steps": d["steps"]})
     out.sort(key=lambda x: json.dumps(x, sort_keys=True))
     return out
 
@@ -71,7 +71,7 @@ def scenarios(ctx, scripts):
 
     orders = {}
     for sc in scripts:
-        base = {"members": sc["members"], "init": sc["init"]}
+        base = {"members": sc["members"], "init": sc["init"], "closeErr": sc.get("cerr", [])}
         has_sel = any(s["a"] == "select" for s in sc["steps"])
         if has_sel:
             variants = [("event", True), ("event", False), ("poll", True), ("nic", True)]
@@ -132,7 +132,7 @@ def run():
     if ctx.quick():
         # always part of the quick tier: the fixed corners and the scenarios in which selections queue up behind a write in flight
         def fixed(s):
-            return "/corner/" in s["id"] or (s["id"].startswith("C19/hold/") and s["p"]["wait"]
+            return "/corner/" in s["id"] or s["id"].startswith("C19/cerr/") or (s["id"].startswith("C19/hold/") and s["p"]["wait"]
                                              and sum(1 for x in s["steps"] if x["a"] == "select") == 2)
         corners = [s for s in scs if fixed(s)]
         scs = pick([s for s in scs if not fixed(s)], QUICK_N, ctx.seed) + corners
